@@ -16,6 +16,8 @@ UNLIMITED = 63
 
 
 def build(ctx):
+    if getattr(ctx, "_echsd_exe", None):
+        return ctx._echsd_exe
     objs, log = ctx.lib_objects()
     if objs is None:
         raise common.Broken("library does not compile: " + log[-1500:])
@@ -23,6 +25,7 @@ def build(ctx):
                       inc=[os.path.join(common.HARNESS, "fakeev")], extra=["-DHAVE_STRUCT_UCRED"])
     if exe is None:
         raise common.Broken("harness hx_echsd does not compile against the working tree:\n" + log[-2500:])
+    ctx._echsd_exe = exe
     return exe
 
 
@@ -30,11 +33,57 @@ def stamp(t):
     return (EPOCH + datetime.timedelta(seconds=t)).strftime("%Y%m%dT%H%M%SZ")
 
 
+def xxh32(data, seed=0):
+    """hash.c's hash(): XXH32 with seed 0 (what intern() and obint() key strings by)"""
+    P1, P2, P3, P4, P5 = 2654435761, 2246822519, 3266489917, 668265263, 374761393
+    M = 0xffffffff
+    rotl = lambda x, r: ((x << r) | (x >> (32 - r))) & M
+    n, i = len(data), 0
+    rd = lambda k: int.from_bytes(data[k:k + 4], "little")
+    if n >= 16:
+        v = [(seed + P1 + P2) & M, (seed + P2) & M, seed & M, (seed - P1) & M]
+        while i <= n - 16:
+            for j in range(4):
+                v[j] = (rotl((v[j] + rd(i) * P2) & M, 13) * P1) & M
+                i += 4
+        h = (rotl(v[0], 1) + rotl(v[1], 7) + rotl(v[2], 12) + rotl(v[3], 18)) & M
+    else:
+        h = (seed + P5) & M
+    h = (h + n) & M
+    while i <= n - 4:
+        h = (rotl((h + rd(i) * P3) & M, 17) * P4) & M
+        i += 4
+    while i < n:
+        h = (rotl((h + data[i] * P5) & M, 11) * P1) & M
+        i += 1
+    h ^= h >> 15
+    h = (h * P2) & M
+    h ^= h >> 13
+    h = (h * P3) & M
+    h ^= h >> 16
+    return h
+
+
+def autouid(cmd):
+    """the name a task without UID goes by: its command's hash (echs_toid_gen, obint_name)"""
+    return "echse/autouid-0x%08x@echse" % xxh32(cmd.encode())
+
+
 class TaskSpec:
-    def __init__(self, uid, occ, max_simul=None, dur=0, owner=None, use_rdate=False, dur_form=None, allday=False):
-        self.uid, self.occ, self.max_simul, self.dur, self.owner, self.use_rdate = uid, occ, max_simul, dur, owner, use_rdate
+    def __init__(self, uid, occ, max_simul=None, dur=0, owner=None, use_rdate=False, dur_form=None, allday=False, uidform=None):
+        self.occ, self.max_simul, self.dur, self.owner, self.use_rdate = occ, max_simul, dur, owner, use_rdate
+        # uidform: None = `UID:<uid>`; "long" = a UID of 256..700 characters (cannot be interned: the task is turned down);
+        # "auto" = no UID line (the task goes by the hash of its command); "none" = neither UID nor SUMMARY (turned down)
+        self.uidform = uidform
+        self.cmd = "echo %s" % uid
+        self.uid_line = {None: "UID:%s" % uid, "long": "UID:%s" % (uid + "-" + "x" * (255 - len(uid) + (occ[0] if occ else 0) % 400)),
+                         "auto": None, "none": None}[uidform]
+        self.uid = {None: uid, "long": "", "auto": autouid(self.cmd), "none": ""}[uidform]      # the key it is filed under
         self.dur_form = dur_form      # how the limit is spelled: None = PTnS, "iso" = mixed W/D/H/M/S, "dtend" = DTEND
         self.allday = allday          # DATE values: the occurrences (midnights, UTC) are written as days
+
+    def id_lines(self):
+        return ([self.uid_line] if self.uid_line else []) + ([] if self.uidform == "none" else ["SUMMARY:%s" % self.cmd])
 
     def dur_lines(self):
         s = self.dur // 1000
@@ -55,7 +104,7 @@ class TaskSpec:
     def ical_event(self):
         if self.allday:
             day = lambda x: (EPOCH + datetime.timedelta(seconds=x)).strftime("%Y%m%d")
-            l = ["BEGIN:VEVENT", "UID:%s" % self.uid, "SUMMARY:echo %s" % self.uid, "DTSTART;VALUE=DATE:%s" % day(self.occ[0])]
+            l = ["BEGIN:VEVENT"] + self.id_lines() + [ "DTSTART;VALUE=DATE:%s" % day(self.occ[0])]
             if len(self.occ) > 1 or self.use_rdate:
                 if self.use_rdate or any(b - a != 86400 for a, b in zip(self.occ, self.occ[1:])):
                     l.append("RDATE;VALUE=DATE:" + ",".join(day(x) for x in self.occ))
@@ -67,7 +116,7 @@ class TaskSpec:
                 l.append("X-ECHS-OWNER:%d" % self.owner)
             l.append("END:VEVENT")
             return l
-        l = ["BEGIN:VEVENT", "UID:%s" % self.uid, "SUMMARY:echo %s" % self.uid, "DTSTART:%s" % stamp(self.occ[0])]
+        l = ["BEGIN:VEVENT"] + self.id_lines() + [ "DTSTART:%s" % stamp(self.occ[0])]
         if len(self.occ) > 1:
             step = self.occ[1] - self.occ[0]
             if self.use_rdate or any(b - a != step for a, b in zip(self.occ, self.occ[1:])):
@@ -109,7 +158,7 @@ def request(peer, items, wire=None):
         text += ["BEGIN:VCALENDAR", "VERSION:2.0", "METHOD:CANCEL"]
         for _, uid in canc:
             text += ["BEGIN:VEVENT", "UID:%s" % uid, "STATUS:CANCELLED", "END:VEVENT"]
-            toks.append("U|%s" % uid)
+            toks.append("U|%s" % (uid if len(uid) < 256 else ""))
         text += ["END:VCALENDAR"]
     body = "\n".join(text) + "\n"
     return "A %d %s %s" % (peer, body.encode().hex(), " ".join(toks)), sched + canc
@@ -139,7 +188,7 @@ class Ref:
                 ok = self._add(peer, it)
                 out.append("rp(%s=%s)" % (it.uid, "2.0" if ok else "5.1"))
             else:
-                uid = it[1]
+                uid = it[1] if len(it[1]) < 256 else ""
                 t = self.tasks.get(uid)
                 ok = t is not None and t["owner"] == peer
                 if ok:
@@ -152,6 +201,9 @@ class Ref:
 
     def _add(self, peer, spec):
         known = peer in USERS or peer in CROWD or peer == 0
+        if not spec.uid:
+            # nothing to file the task under
+            return False
         owner = spec.owner
         if owner is not None and owner not in USERS + CROWD + [0]:
             owner = None
@@ -219,12 +271,12 @@ class Ref:
         return ("x" if live else "nochild"), sp
 
     def http_sched(self, peer, url_uid, tuids):
-        """GET [/u/N]/sched: a user sees its own tasks only; root sees those of the user named in the URL"""
+        """GET [/u/N]/sched: a user sees its own tasks only; root sees those of the user named in the URL, its own without"""
         mine = lambda u: sorted(uid for uid, t in self.tasks.items() if t["owner"] == u)
         if peer != 0:
             allowed = set(mine(peer))
         else:
-            allowed = set(mine(url_uid)) if url_uid is not None else set()
+            allowed = set(mine(url_uid if url_uid is not None else 0))
         return allowed
 
     def http_queue(self, peer, url_uid):
@@ -235,7 +287,8 @@ class Ref:
                 return set(), set()
             target = peer
         else:
-            target = url_uid
+            # root may look at everybody's, by default at its own
+            target = 0 if url_uid is None else url_uid
         if target in self.dirty or len(self.dirty) >= 16:
             self.checkpoint()
         own = {uid for uid, t in self.tasks.items() if t["owner"] == target}
@@ -333,7 +386,10 @@ def gen_history(rng, knobs):
             cancel_req = rng.random() < knobs.get("p_cancel", 0.2)     # one METHOD per request
             for _ in range(rng.choice([1, 1, 1, 2, 3])):
                 if cancel_req:
-                    items.append(("cancel", rng.choice(uids)))
+                    u = rng.choice(uids)
+                    z = rng.choice(knobs.get("uidforms", [None]))
+                    # (a task without UID is cancelled by the name it is listed under; a UID too long to intern names nothing)
+                    items.append(("cancel", autouid("echo " + u) if z == "auto" else u + "-" + "y" * 300 if z == "long" else u))
                 else:
                     n = rng.choice([1, 2, 3, 4, 6])
                     step = rng.choice([1, 2, 5, 10])
@@ -345,7 +401,8 @@ def gen_history(rng, knobs):
                     dur = rng.choice(knobs.get("durs", [0, 0, 5000, 61000]))
                     owner = rng.choice([None] * 8 + [peer, rng.choice(USERS)])
                     items.append(TaskSpec(rng.choice(uids), occ, ms, dur, owner, use_rdate=rng.random() < 0.3,
-                                          dur_form=rng.choice(knobs.get("dur_forms", [None]))))
+                                          dur_form=rng.choice(knobs.get("dur_forms", [None])),
+                                          uidform=rng.choice(knobs.get("uidforms", [None]))))
             op, its = request(peer, items, knobs.get("wire") if rng.random() < knobs.get("p_wire", 0.5) else None)
             ops.append(op); acts.append(("A", peer, its))
         elif r < 0.62 and knobs.get("allday", False) and rng.random() < 0.12:
